@@ -120,7 +120,7 @@ class C10(InterpProp):
     quick_runs = 400
     thorough_runs = 20000
     chunk = 10
-    run_timeout_s = 180.0
+    run_timeout_s = 600.0
     ddmin_paths = [("deliveries",), ("program", "flows", "*", "body"), ("injections",)]
 
     def generate(self, d, index, tier):
